@@ -702,6 +702,26 @@ Definition convert_if_network (a : addr) (expected : net) : outcome addr (net * 
   end.
 
 (* ------------------------------------------------------------------------------------------ *)
+(** * zcash_keys::encoding: Sapling payment addresses through the shared helper [bech32_decode]
+      (Bech32, prefix compared as written — case sensitive —, regrouping with the BIP 173 padding
+      rule, as repaired by the second `fix:` commit) and [bech32_encode]. Whether 43 bytes are a
+      valid payment address is external cryptography: the oracle [valid]. *)
+Inductive kerr := KBech32 | KHrpMismatch | KRead.
+
+Definition keys_decode_payment_address (valid : bytes -> bool) (hrp s : list N) : outcome bytes kerr :=
+  match b32_decode B32 BECH32_CODE_LENGTH s with
+  | None => Err KBech32
+  | Some (h, fes) =>
+      if negb (str_eqb h hrp) then Err KHrpMismatch
+      else match fes_to_bytes fes with
+           | None => Err KRead                       (* checked_payload: invalid padding *)
+           | Some data => if (len data =? 43) && valid data then Ok data else Err KRead
+           end
+  end.
+Definition keys_encode_payment_address (hrp : list N) (d : bytes) : outcome (list N) unit :=
+  expect (b32_encode B32 BECH32_CODE_LENGTH hrp d).
+
+(* ------------------------------------------------------------------------------------------ *)
 (** * Hash tables supplied with a case: an entry is (tag, i, length, input, output).
       tag 0: output = H i length input.  tag 1 (length field unused, 0): output = the
       concatenation of G i 0 input, G i 1 input, ... (64 bytes each).
